@@ -177,6 +177,7 @@ def install(ex, mk):
     qerr = lambda: err(Opaque('quick_protobuf::Error'))
     ex.model(Q + r'from_bytes', lambda e, n, a: RdV(len(deref_all(a[0]).items)))
     ex.model(Q + r'is_eof', lambda e, n, a: fd(a).start == fd(a).end)
+    ex.model(Q + r'len', lambda e, n, a: Num(fd(a).end - fd(a).start, 64))
 
     def next_tag(e, n, a):
         v = rd_varint(e, fd(a), data_of(a), 32)
